@@ -4,7 +4,7 @@
    Model: Model/NameFormat.v (pybtex/bibtex/names.py, builtins.py format.name$);
    independent definitions (balanced, level1_letter_runs, legal_group, interleave, seps_rule): Spec/NameFormat.v. *)
 From Pybtex Require Import Base.Prelude Base.PyChar Base.PyStr Model.BibtexStr Model.Names Model.NameFormat
-  Spec.NameFormat Proofs.NameFormatParse Proofs.NameFormatFmt.
+  Spec.NameFormat Proofs.NameFormatParse Proofs.NameFormatFmt Proofs.NameFormatGrammar.
 
 (* the format parser terminates within its fuel and raises no foreign exception: every string
    is either parsed or rejected with a pybtex error *)
@@ -76,6 +76,40 @@ Theorem format_name_n_range : forall names n f l, split_name_list names = Ok l -
 Proof. exact Proofs.NameFormatFmt.format_name_n_range. Qed.
 Print Assumptions format_name_n_range.
 
+(* ---- growth ---- *)
+(* brace-level-0 text is kept verbatim and in order: the Text parts of the parse are exactly the
+   level-0 characters of the format string (Text.format returns the text unchanged) *)
+Theorem level0_verbatim : forall f ps, parse_format f = Ok ps ->
+  concat (map part_text ps) = level0_text f 0 /\ (forall t p, format_part (PText t) p = Ok t).
+Proof. exact level0_verbatim_full. Qed.
+Print Assumptions level0_verbatim.
+
+(* every format string of the grammar (level-0 characters; parts made of pre-text, one legal
+   letter group, optional {separator}, post-text, with nested balanced groups in the texts) is accepted *)
+Theorem wellformed_accepted : forall f, wf_format f -> exists ps, parse_format f = Ok ps.
+Proof. exact wellformed_accepted_thm. Qed.
+Print Assumptions wellformed_accepted.
+
+(* and a well-formed part is split into exactly its pre-text, lower-cased letters, separator and post-text *)
+Theorem wellformed_group_parsed : forall (pre ls dl post r : str),
+  verb pre -> legal_letters ls = true -> verb post ->
+  (walk dl 0 = Some 0 ->
+   parse_name_part (pre ++ ls ++ c_lbrace :: dl ++ c_rbrace :: post ++ c_rbrace :: r) = Ok ((pre, Some (lower ls), Some dl, post), r)) /\
+  (is_lbrace (hd 0%N post) = false ->
+   parse_name_part (pre ++ ls ++ post ++ c_rbrace :: r) = Ok ((pre, Some (lower ls), None, post), r)) /\
+  parse_name_part (pre ++ c_rbrace :: r) = Ok ((pre, None, None, []), r).
+Proof. exact group_parsed. Qed.
+Print Assumptions wellformed_group_parsed.
+
+(* NamePart.__init__ on such a tuple: the letter, abbreviation iff a single letter, and the
+   trailing ties of the post-text: none / "~" / "~~" are detected and removed *)
+Theorem letters_and_ties : forall pre v dl q, format_chars_ok false v = true -> no_trailing_tilde q ->
+  mk_name_part (pre, Some v, dl, q) = Ok (mkNP pre (Some (hd 0%N v)) (Nat.eqb (length v) 1) dl q 0) /\
+  mk_name_part (pre, Some v, dl, q ++ [c_tilde]) = Ok (mkNP pre (Some (hd 0%N v)) (Nat.eqb (length v) 1) dl q 1) /\
+  mk_name_part (pre, Some v, dl, q ++ [c_tilde; c_tilde]) = Ok (mkNP pre (Some (hd 0%N v)) (Nat.eqb (length v) 1) dl q 2).
+Proof. exact letters_and_ties_thm. Qed.
+Print Assumptions letters_and_ties.
+
 (* ---- non-vacuity ---- *)
 Example unbalanced_example : ~ balanced (s2l "{ff") /\ ~ balanced (s2l "ff}") /\ balanced (s2l "{{x}ff{.}~}").
 Proof. unfold balanced. vm_compute. repeat split; congruence. Qed.
@@ -100,3 +134,19 @@ Example range_example :
   format_name_n (s2l "A B and C D") 0 (s2l "{ll}") = PyErr E_NONAME (-1) /\
   format_name_n (s2l "A B and C D") 2 (s2l "{ff~}{ll}") = Ok (s2l "C~D", false).
 Proof. vm_compute. auto. Qed.
+Example wf_example : wf_format (s2l "{f.~}") /\ wf_format (s2l "a{{x}ll{-}~~}").
+Proof.
+  split.
+  - apply (wf_grp (s2l "f.~") []); [|constructor].
+    apply (wfg_default [] (s2l "f") (s2l ".~")); [constructor|reflexivity| |reflexivity].
+    repeat (apply verb_char; [reflexivity|]). constructor.
+  - apply wf_char; [reflexivity|reflexivity|].
+    apply (wf_grp (s2l "{x}ll{-}~~") []); [|constructor].
+    apply (wfg_sep (s2l "{x}") (s2l "ll") (s2l "-") (s2l "~~")); [|reflexivity|reflexivity|].
+    + apply (verb_group (s2l "x") []); [reflexivity|constructor].
+    + repeat (apply verb_char; [reflexivity|]). constructor.
+Qed.
+Example group_example :
+  parse_format (s2l "x{{a}FF{-}, ~}") =
+  Ok [PText (s2l "x"); PName (mkNP (s2l "{a}") (Some 102%N) false (Some (s2l "-")) (s2l ", ") 1)].
+Proof. vm_compute. reflexivity. Qed.
